@@ -26,7 +26,7 @@ func (c Chooser) Choose(label string, n int) int {
 // Keys is the small alphabet shared by documents and expressions.
 // (names that look like keywords, literals, function names or numbers in
 // another letter case or position are ordinary identifiers)
-var Keys = []string{"a", "b", "c", "d", "k", "v", "é", " ", "let", "", "In", "IN", "iN", "Let", "LET", "lEt", "Null", "TRUE", "False", "null", "true", "abs", "length", "sort_by", "not_null", "_", "_1", "a1", "A", "e1", "E5", "x_", "__", "a-b", "1a", "a.b", "a b", "$", "@", "*", "&", "ı", "K"}
+var Keys = []string{"a", "b", "c", "d", "k", "v", "é", " ", "let", "", "In", "IN", "iN", "Let", "LET", "lEt", "Null", "TRUE", "False", "null", "true", "abs", "length", "sort_by", "not_null", "_", "_1", "a1", "A", "e1", "E5", "x_", "__", "a-b", "1a", "a.b", "a b", "$", "@", "*", "&", "ı", "K", "a/b", "😀", "p/😀\\q", "\"", "\\", "\n", "\u007f", "\u00e9\u0301"}
 
 var plainKeys = []string{"a", "b", "c", "d", "k", "v"}
 
